@@ -108,6 +108,15 @@ def oracle_roundtrip(inp):
         out.append(('crop_pad_identity', ok, 'input array', {'shape': list(cn.shape), 'first_row': cn.reshape(-1)[:8].tolist() if cn.dtype != complex else str(cn.reshape(-1)[:4])}))
     except Exception as e:
         out.append(('crop_pad_identity', False, 'input array', 'exception %r' % (e,)))
+    if api == 'torch':
+        # the other documented ways of writing the crop size: 1 x 1 x M x N (list, tuple, torch.Size) select the same window as M x N
+        try:
+            ref = to_np(cc(p, size=[h, w]))
+            for form in ([1, 1, h, w], (h, w), torch.Size([1, 1, h, w])):
+                alt = to_np(cc(p, size=form))
+                out.append(('crop_size_forms_agree', alt.shape == ref.shape and bool((alt == ref).all()), 'same window as size=[%d, %d]' % (h, w), {'form': str(form), 'shape': list(alt.shape)}))
+        except Exception as e:
+            out.append(('crop_size_forms_agree', False, 'same window', 'exception %r' % (e,)))
     out.append(('argument_unchanged', bool((to_np(x) == xn).all()), True, False))
     return out
 
